@@ -168,6 +168,33 @@ func TestC11_S1NoRefresh(t *testing.T) {
 	})
 }
 
+// ---- C09 on S1: writes between the submission of a reload and its (late) execution ----------------------
+
+func TestC09_S1LateReloads(t *testing.T) {
+	s1Main(t, s1Spec{
+		Prop: "C09", Test: "S1LateReloads",
+		Rule: "refresh-enabled configurations with a queueing executor: Refresh/BulkRefresh calls and refresh-due Get/BulkGet reads only submit the reload; explicit writes, computes, invalidations, expiry (clock advances) and further reads happen before RunTasks executes it; " +
+			"oracle after every step: a reload (or the load a Refresh performs for an absent key) whose key was written, computed, invalidated or removed since it was requested hands its result to the caller's channel but leaves the cache contents as the model has them; an unsuperseded one is installed; " +
+			"non-trivial = at least one reload or load result was superseded",
+		Profile: &vh.Profile{Name: "c09late", NeedRefresh: true, TinyRefresh: true, Executors: []int{vh.ExecDeferred}, MinLen: 2, MaxLen: 50, MaxKeys: 3,
+			Ops: with(vh.BaseOps(), "refresh", 14, "bulkrefresh", 8, "get", 10, "bulkget", 5, "set", 12, "invalidate", 8, "compute", 6, "setifabsent", 3, "runtasks", 12, "advanceto", 6, "advance", 6, "invalidateall", 1)},
+		Facets:       vh.FContents | vh.FLoad | vh.FRefresh | vh.FPanic,
+		FinalQuiesce: true,
+		NonTrivial:   func(r *vh.Runner) bool { return r.St.SupersededRefresh > 0 },
+		Classes: func(r *vh.Runner) []string {
+			var c []string
+			if r.St.SupersededRefresh > 0 {
+				c = append(c, "superseded-load-or-reload")
+			}
+			if r.St.Reloads > 0 {
+				c = append(c, "reload")
+			}
+			return c
+		},
+		Assumptions: commonAssumptions,
+	})
+}
+
 // ---- C12 ---------------------------------------------------------------
 
 func TestC12_S1Deadlines(t *testing.T) {
